@@ -1037,8 +1037,13 @@ func (h *fsmHandler) active(ctx context.Context) (bgp.FSMState, *fsmStateReason)
 			if _, err := result.conn.Write(b); err != nil {
 				result.conn.Close()
 				fsm.logger.Warn("failed to send keepalive on outgoing connection", slog.String("Error", err.Error()))
-				// the manager was stopped, restart it
-				fsm.outgoingConnMgr = newOutGoingConnManager(ctx, fsm)
+				// the manager that handed this connection over has
+				// returned; restart it unless a new one is running already
+				// (the connection may have waited in the channel since
+				// before this state was entered)
+				if fsm.outgoingConnMgr.ctx.Err() != nil {
+					fsm.outgoingConnMgr = newOutGoingConnManager(ctx, fsm)
+				}
 			} else {
 				fsm.bgpMessageStateUpdate(bgp.BGP_MSG_KEEPALIVE, false)
 				fsm.lock.Lock()
